@@ -23,13 +23,14 @@ import (
 )
 
 type c13Case struct {
-	Transport string `json:"transport"` // ws | http
-	Kind      string `json:"kind"`      // unary | notify | sub | reverse | noctx | cancel_then_panic
-	Payload   string `json:"payload"`   // string | error | nilmap | nilptr | custom | index
-	Siblings  int    `json:"siblings"`  // gated healthy calls in flight on the same client while the panic happens
-	Stream    int    `json:"stream"`    // length of a concurrently running stream (0 = none; ws only)
-	Repeat    int    `json:"repeat"`    // panicking calls in a row
-	Parallel  int    `json:"parallel"`  // additional panicking unary calls fired at the same instant (several connections, both transports)
+	Transport string `json:"transport"`        // ws | http
+	Kind      string `json:"kind"`             // unary | notify | sub | reverse | noctx | cancel_then_panic
+	Payload   string `json:"payload"`          // string | error | nilmap | nilptr | custom | index
+	Siblings  int    `json:"siblings"`         // gated healthy calls in flight on the same client while the panic happens
+	Stream    int    `json:"stream"`           // length of a concurrently running stream (0 = none; ws only)
+	Repeat    int    `json:"repeat"`           // panicking calls in a row
+	Parallel  int    `json:"parallel"`         // additional panicking unary calls fired at the same instant (several connections, both transports)
+	Traced    bool   `json:"traced,omitempty"` // talk to the hosted server that was built with a tracer
 }
 
 type c13Env struct {
@@ -101,16 +102,20 @@ func (e *c13Env) run(c c13Case) *Violation {
 	var cl TokClient
 	var closer jsonrpc.ClientCloser
 	rev := &RevHandler{ID: "parent"}
+	path := ""
+	if c.Traced {
+		path = "/traced"
+	}
 	if c.Transport == "http" {
 		var hc struct {
 			Call   func(ctx context.Context, tok string, plan Plan) (Result, error)
 			Notify func(ctx context.Context, tok string, plan Plan) error `notify:"true"`
 			NoCtx  func(tok string, plan Plan) (Result, error)            `rpc_method:"Tok.Call"`
 		}
-		closer, err = jsonrpc.NewMergeClient(context.Background(), "http://"+h.addr, "Tok", []interface{}{&hc}, nil)
+		closer, err = jsonrpc.NewMergeClient(context.Background(), "http://"+h.addr+path, "Tok", []interface{}{&hc}, nil)
 		cl.Call, cl.Notify, cl.NoCtx = hc.Call, hc.Notify, hc.NoCtx
 	} else {
-		closer, err = jsonrpc.NewMergeClient(context.Background(), "ws://"+h.addr, "Tok", []interface{}{&cl}, nil, jsonrpc.WithClientHandler("Rev", rev))
+		closer, err = jsonrpc.NewMergeClient(context.Background(), "ws://"+h.addr+path, "Tok", []interface{}{&cl}, nil, jsonrpc.WithClientHandler("Rev", rev))
 	}
 	if err != nil {
 		if !h.Alive() {
@@ -153,7 +158,7 @@ func (e *c13Env) run(c c13Case) *Violation {
 				var c2 struct {
 					Call func(ctx context.Context, tok string, plan Plan) (Result, error)
 				}
-				addr := "ws://" + h.addr
+				addr := "ws://" + h.addr + path
 				if i%4 == 3 {
 					addr = "http://" + h.addr
 				}
@@ -295,9 +300,9 @@ func (e *c13Env) run(c c13Case) *Violation {
 	return nil
 }
 
-var c13Payloads = []string{"string", "error", "nilmap", "nilptr", "custom", "index", "nilstringer", "nilerror", "funcstruct", "chan", "nan", "ctrlbytes", "badutf8", "longnoblank"}
+var c13Payloads = []string{"string", "error", "nilmap", "nilptr", "custom", "index", "nilstringer", "nilerror", "funcstruct", "chan", "nan", "ctrlbytes", "badutf8", "longnoblank", "aborthandler", "eof", "ctxcanceled"}
 
-const c13Rule = "panic payload {string, error, nil-map write, nil dereference, custom struct, index out of range} x call kind {unary, no-context, notification, channel-returning, reverse (panic in the client-side handler)} x 0-4 healthy gated sibling calls and an optional paced stream in progress on the same connection x 1-3 panics in a row x {ws, http}; server hosted in a child process. Complete grid of payload x kind x transport plus rapid-generated mixes. Non-trivial = at least one sibling or stream in progress, or a non-string payload; distinct by descriptor hash"
+const c13Rule = "panic payload {string, error, nil-map write, nil dereference, custom struct, index out of range, unmarshalable and self-panicking values, sentinel errors such as http.ErrAbortHandler} x server built {without, with} a tracer x call kind {unary, no-context, notification, channel-returning, reverse (panic in the client-side handler)} x 0-4 healthy gated sibling calls and an optional paced stream in progress on the same connection x 1-3 panics in a row x {ws, http}; server hosted in a child process. Complete grid of payload x kind x transport plus rapid-generated mixes. Non-trivial = at least one sibling or stream in progress, or a non-string payload; distinct by descriptor hash"
 
 func TestC13(t *testing.T) {
 	env := &c13Env{}
@@ -305,9 +310,12 @@ func TestC13(t *testing.T) {
 	rec := NewRec("C13", c13Rule)
 	defer rec.Finish(t)
 	rec.EnableJournal()
-	rec.RequireClass("payload_ctrlbytes", "payload_badutf8", "payload_longnoblank", "simultaneous_panics", "payload_funcstruct", "payload_nan", "kind_cancel_then_panic", "payload_nilstringer", "payload_nilerror", "kind_unary", "kind_notify", "kind_sub", "kind_reverse", "tr_http", "tr_ws", "with_siblings", "with_stream")
+	rec.RequireClass("traced_server", "payload_aborthandler", "payload_ctrlbytes", "payload_badutf8", "payload_longnoblank", "simultaneous_panics", "payload_funcstruct", "payload_nan", "kind_cancel_then_panic", "payload_nilstringer", "payload_nilerror", "kind_unary", "kind_notify", "kind_sub", "kind_reverse", "tr_http", "tr_ws", "with_siblings", "with_stream")
 	run := func(ft failer, c c13Case) {
 		cl := []string{"kind_" + c.Kind, "tr_" + c.Transport, "payload_" + c.Payload}
+		if c.Traced {
+			cl = append(cl, "traced_server")
+		}
 		if c.Siblings > 0 {
 			cl = append(cl, "with_siblings")
 		}
@@ -329,7 +337,7 @@ func TestC13(t *testing.T) {
 					if (k == "reverse" || k == "cancel_then_panic") && i > 0 {
 						continue
 					}
-					run(t, c13Case{Transport: tr, Kind: k, Payload: p, Siblings: i % 3, Stream: (i % 2) * 5, Repeat: 1, Parallel: (i % 3) * 8})
+					run(t, c13Case{Transport: tr, Kind: k, Payload: p, Siblings: i % 3, Stream: (i % 2) * 5, Repeat: 1, Parallel: (i % 3) * 8, Traced: (i+len(k))%2 == 0})
 				}
 			}
 		}
@@ -342,6 +350,7 @@ func TestC13(t *testing.T) {
 			kinds = append(kinds, "sub", "reverse", "cancel_then_panic")
 		}
 		c.Kind = rapid.SampledFrom(kinds).Draw(rt, "kind")
+		c.Traced = rapid.Bool().Draw(rt, "traced")
 		run(rt, c)
 	})
 }
